@@ -28,6 +28,7 @@ class Obligation:
                 'witness': self.witness}
 
 
+REPLAY = None     # --replay <file>: only the obligation named in the replay file is re-decided (on the current tree); evidence is left alone
 DEFERRED = None   # thorough tier: a list collecting the reports of the passes, merged by `merge_passes`
 
 
@@ -97,6 +98,8 @@ class Report:
         if DEFERRED is not None:
             DEFERRED.append(self)
             return 0
+        if REPLAY is not None:
+            return self.finish_replay()
         known = load_known()
         kf = {(f['property'], f['key']): f for f in known.get('findings', [])}
         viol = [o for o in self.obls if not o.ok]
@@ -118,6 +121,9 @@ class Report:
             print('KNOWN-FINDING: property=%s %s [%s] %s' % (self.prop, kf[(self.prop, o.key)].get('what', o.what), o.key, (o.witness or '')))
         os.makedirs(os.path.join(VERIF, 'evidence', 'replay'), exist_ok=True)
         replay_paths = []
+        import glob
+        for old in glob.glob(os.path.join(VERIF, 'evidence', 'replay', '%s-*.json' % self.prop)):
+            os.remove(old)          # replay files describe the current run only
         for o in new:
             print('  VIOLATED %s  %s  fn %s  rule %s' % (o.site, o.what, o.fn, o.rule))
             for line in str(o.detail).splitlines()[:12]:
@@ -137,6 +143,33 @@ class Report:
             return 1
         print('%s: %d obligations, %d discharged, %d known findings, %.1fs' % (self.prop, len(self.obls), len(self.obls) - len(viol), len(listed), wall))
         return 0
+
+    def finish_replay(self):
+        want = REPLAY['obligation']['key']
+        hit = [o for o in self.obls if o.key == want]
+        print('== %s replay of obligation %s (rule %s) on the current tree ==' % (self.prop, want, REPLAY['obligation'].get('rule')))
+        print('  recorded: %s' % REPLAY['obligation'].get('what'))
+        for line in str(REPLAY['obligation'].get('detail', '')).splitlines()[:6]:
+            print('      ' + line)
+        if not hit:
+            print('  not reproduced: the current tree generates no obligation with this key (failure-only obligation, or the code it named is gone;')
+            print('  the full check decides whether an anchor is missing)')
+            return 0
+        o = hit[0]
+        if o.ok:
+            print('  now: discharged (%s)' % o.how)
+            return 0
+        known = load_known()
+        if any(f['property'] == self.prop and f['key'] == o.key for f in known.get('findings', [])):
+            print('KNOWN-FINDING: property=%s [%s]' % (self.prop, o.key))
+            return 0
+        print('  now: VIOLATED %s  %s  fn %s' % (o.site, o.what, o.fn))
+        for line in str(o.detail).splitlines()[:12]:
+            print('      ' + line)
+        if o.witness:
+            print('      witness: %s' % o.witness)
+        print('VIOLATION property=%s replay=%s' % (self.prop, REPLAY['path']))
+        return 1
 
     def write_evidence(self, wall, nviol, listed):
         n = len(self.obls)
